@@ -88,6 +88,8 @@ def subset_cases():
     for r in range(1, 5):
         for sub in itertools.combinations(KINDS, r):
             out.append(("subset", "+".join(sub), {k: base[k].encode() for k in sub}))
+            if len(sub) >= 2:
+                out.append(("subset-two-codemods", "+".join(sub), {k: base[k].encode() for k in sub}))
             # the preferred kind present but not updatable: the next one must take it, still at most one
             if len(sub) >= 2 and sub[0] in nonupd:
                 f = {k: base[k].encode() for k in sub}
@@ -99,7 +101,7 @@ def subset_cases():
 # --------------------------------------------------------------------------- driver (bulk, in worker processes)
 
 
-def apply_dependency(files: dict, dep_name: str, codemod_id="pixee:python/harden-pickle-load"):
+def apply_dependency(files: dict, dep_name: str, codemod_id="pixee:python/harden-pickle-load", same_context_twice=False):
     """Public-class path of a dependency update: returns (tree after first application, tree after second, changeset paths, exc)."""
     import shutil
 
@@ -123,6 +125,12 @@ def apply_dependency(files: dict, dep_name: str, codemod_id="pixee:python/harden
             ctx.add_dependencies(codemod_id, {dep_obj(dep_name)})
             ctx.process_dependencies(codemod_id)
             paths.append([c.path for c in ctx.get_changesets(codemod_id)])
+            if same_context_twice:
+                # a second codemod of the same run needs the same package
+                other = "pixee:python/use-defusedxml"
+                ctx.add_dependencies(other, {dep_obj(dep_name)})
+                ctx.process_dependencies(other)
+                paths[-1] += [c.path for c in ctx.get_changesets(other)]
         except Exception as e:  # the run would die with a traceback
             exc = f"{type(e).__name__}: {e}"
             paths.append([])
@@ -196,10 +204,10 @@ def judge(files, after, after2, paths, exc, dep, updatable_kinds):
 
 
 def eval_case(case):
-    if case[0] in ("subset", "subset-first-not-updatable"):
+    if case[0] in ("subset", "subset-first-not-updatable", "subset-two-codemods"):
         _, label, files = case
         dep = "Fickling"
-        a1, a2, paths, exc = apply_dependency(files, dep)
+        a1, a2, paths, exc = apply_dependency(files, dep, same_context_twice=(case[0] == "subset-two-codemods"))
         found = judge(files, a1, a2, paths, exc, dep, set(files))
         changed = sorted(k for k in files if a1.get(k) != files[k])
         return [(f"{case[0]}:{label}|{k}", d) for k, d in found], bool(changed)
@@ -326,10 +334,10 @@ def replay(rp):
         found = e2e_eval_cli(arg)
         return (rp["sig"] not in {s for s, _ in found}), "\n".join(d for _, d in found) or "ok"
     case = tuple(rp["case"])
-    if case[0] in ("subset", "subset-first-not-updatable"):
+    if case[0].startswith("subset"):
         case = (case[0], case[1], {k: (v if isinstance(v, bytes) else v.encode()) for k, v in case[2].items()})
     found, _ = eval_case(case)
-    files = case_files(case) if case[0] not in ("subset", "subset-first-not-updatable") else case[2]
+    files = case_files(case) if not case[0].startswith("subset") else case[2]
     a1, _, _, _ = apply_dependency(files, case[4] if len(case) > 4 else "Fickling")
     txt = "\n".join(f"{s}: {d}" for s, d in found) or "manifest valid, complete and duplicate-free"
     return (rp["sig"] not in {s for s, _ in found}), txt + f"\n--- before {files}\n--- after {a1}"
